@@ -13,7 +13,8 @@ import random
 
 from .closures import ind, run_model, parse, Discard, first_deviation, split_steps   # noqa: F401  (re-exported)
 
-TYPE_TXT = {"int": "int", "str": "str", "list": "[int...]", "opt": "int?"}
+TYPE_TXT = {"int": "int", "str": "str", "list": "[int...]", "opt": "int?", "bool": "bool", "map": "map[str, int]"}
+MAP_KEYS = ("k1", "k2")
 
 
 class ClassSpec:
@@ -66,11 +67,12 @@ class G08:
         c = ClassSpec(self.fresh("K"))
         p = c.name.lower()
         kinds = ["int"]
-        pool = ["int", "str", "list", "opt", "self"]
+        pool = ["int", "str", "list", "list", "opt", "self", "bool", "map"]
         if self.classes:
-            pool += ["cls", "clsopt", "objs", "cls"]
+            pool += ["cls", "clsopt", "objs", "cls", "cls"]
         for k in r.sample(pool, r.randint(1, min(5, len(pool)))):
-            kinds.append(k)
+            if k not in kinds or k == "int":
+                kinds.append(k)
         for k in kinds:
             fname = self.fresh(p + "f")
             if k in ("cls", "clsopt", "objs"):
@@ -94,9 +96,13 @@ class G08:
                 init.append("self.%s = %d" % (fname, r.randint(0, 9)))
             elif base == "str":
                 init.append('self.%s = "%s"' % (fname, r.choice(["a", "b", "xy", ""])))
+            elif base == "bool":
+                init.append("self.%s = %s" % (fname, r.choice(["true", "false"])))
+            elif base == "map":
+                init.append("self.%s = map[str, int] {}" % fname)
             elif base == "list":
                 ip = [p_ for p_, _, kk in c.ctor if kk == "int"]
-                if ip and r.random() < 0.5:
+                if ip and r.random() < 0.35:
                     init.append("self.%s = [%s]" % (fname, ip[0]))
                 else:
                     init.append("self.%s = []" % fname)
@@ -191,8 +197,34 @@ class G08:
             m = self.fresh(p + "swap")
             add(m, [(o, "Self")], None, ["%s = self.%s" % (t, fi), "self.%s = %s.%s" % (fi, o, fi), "%s.%s = %s" % (o, fi, t)],
                 "two_objects")
+        if r.random() < 0.8:
+            # pure expressions applied DIRECTLY to field reads: must not change the object
+            m = self.fresh(p + "neg")
+            add(m, [], "int", ["return -self.%s" % fi], "pure_unary_on_field")
+            m = self.fresh(p + "mix")
+            other = ints[-1]
+            add(m, [], "int", ["return -self.%s + self.%s * 2 - (-self.%s) + (self.%s %% 5)" % (fi, other, fi, other)], "pure_ops_on_fields")
         for fname, k in c.fields:
             base = k.split(":")[0]
+            if base == "bool":
+                m = self.fresh(p + "notb")
+                add(m, [], "bool", ["return !self.%s" % fname], "pure_unary_on_field")
+                m = self.fresh(p + "both")
+                add(m, [], "bool", ["return !self.%s || self.%s > 3 && !(self.%s == 0)" % (fname, fi, fi)], "pure_ops_on_fields")
+                if r.random() < 0.6:
+                    m = self.fresh(p + "flip")
+                    add(m, [], "bool", ["self.%s = !self.%s" % (fname, fname), "return self.%s" % fname], "bool_flip")
+            if base == "list":
+                m = self.fresh(p + "fneg")
+                add(m, [], "int", ["if self.%s.len() == 0 {" % fname, "  return 0", "}", "return -(self.%s)[0]" % fname],
+                    "pure_unary_on_index")
+                o = self.fresh("o")
+                m = self.fresh(p + "adopt")
+                add(m, [(o, "Self")], None, ["self.%s = %s.%s" % (fname, o, fname)], "adopt_list")
+            if base == "map":
+                o = self.fresh("o")
+                m = self.fresh(p + "adoptm")
+                add(m, [(o, "Self")], None, ["self.%s = %s.%s" % (fname, o, fname)], "adopt_map")
             if base == "str" and r.random() < 0.7:
                 s = self.fresh("s")
                 m = self.fresh(p + "cat")
@@ -230,6 +262,19 @@ class G08:
                 kp = self.fresh("k")
                 m = self.fresh(p + "setk")
                 add(m, [(kp, kc.name)], None, ["self.%s = %s" % (fname, kp)], "set_object_field")
+                if base == "cls":
+                    kp, old = self.fresh("k"), self.fresh("old")
+                    m = self.fresh(p + "swapk")
+                    add(m, [(kp, kc.name)], kc.name, ["%s = self.%s" % (old, fname), "self.%s = %s" % (fname, kp), "return %s" % old],
+                        "swap_object_field")
+                    c.swaps = getattr(c, "swaps", []) + [(fname, m, kc.name)]
+                    if not getattr(c, "m_weigh", None) or True:
+                        x, y = self.fresh("x"), self.fresh("y")
+                        mw = self.fresh(p + "weigh")
+                        add(mw, [(x, kc.name), (y, kc.name)], "int",
+                            ["return %s.%s() * 100 + %s.%s()" % (x, kc.m_get, y, kc.m_get)], "two_object_args")
+                        c.weighs = getattr(c, "weighs", {})
+                        c.weighs[kc.name] = mw
             elif base == "objs":
                 kc = self.cls(k.split(":")[1])
                 kp = self.fresh("k")
@@ -320,8 +365,11 @@ class G08:
             c = self.cls(cn)
             for fname, k in c.fields:
                 base = k.split(":")[0]
-                if base in ("int", "str", "list", "opt"):
+                if base in ("int", "str", "list", "opt", "bool"):
                     lines.append("print %s.%s" % (v, fname))
+                elif base == "map":
+                    for key in MAP_KEYS:
+                        lines.append('print (%s.%s)["%s"]' % (v, fname, key))
                 elif base == "self":
                     lines += ["if %s.%s == nil {" % (v, fname), '  print "-"', "} else {",
                               "  print %s.%s.%s" % (v, fname, c.m_get.join(["", "()"])), "}"]
@@ -418,9 +466,14 @@ class G08:
                 self.mark(t, False)
                 return "read_from_map", ['%s = get %s["%s"]' % (t, mp[0], r.choice(mp[1]))]
             return None
-        if c < 0.62:
+        if c < 0.58:
+            out = self.special_step(v, cl, same)
+            if out:
+                return out
+            return None
+        if c < 0.72:
             return self.field_write(v, cl, same)
-        if c < 0.86:
+        if c < 0.88:
             return self.method_call(v, cl, same)
         if c < 0.95:
             w = r.choice(same)
@@ -470,6 +523,11 @@ class G08:
             return "field_write", ["%s.%s = [%d]" % (v, fname, r.randint(0, 9))]
         if base == "opt":
             return "field_write", ["%s.%s = %s" % (v, fname, r.choice(["nil", str(r.randint(0, 9))]))]
+        if base == "bool":
+            return "field_write", ["%s.%s = %s" % (v, fname, r.choice(["true", "false", "!%s.%s" % (v, fname)]))]
+        if base == "map":
+            t = self.fresh("t")
+            return "field_map_alias_write", ["%s = %s.%s" % (t, v, fname), '%s["%s"] = %d' % (t, r.choice(MAP_KEYS), r.randint(0, 9))]
         if base == "self":
             f = r.randrange(4)
             if f == 0 and v in self.selfish:
@@ -504,6 +562,87 @@ class G08:
         # objs
         src = r.choice(have) if have and r.random() < 0.7 else "%s(%s)" % (kc.name, self.ctor_args(kc))
         return "field_list_push", ["%s.%s.push(%s)" % (v, fname, src)]
+
+    def special_step(self, v, cl, same):
+        """Steps aimed at reference-typed fields, pure expressions on field reads and read-then-reassign inside one
+        expression."""
+        r = self.r
+        lists = [n for n, kk in cl.fields if kk == "list"]
+        maps = [n for n, kk in cl.fields if kk == "map"]
+        ints = [n for n, kk in cl.fields if kk == "int"]
+        bools = [n for n, kk in cl.fields if kk == "bool"]
+        w = r.choice(same)
+        opts = [4]
+        if lists:
+            opts += [0, 0, 1, 1, 2, 5]
+        if maps:
+            opts += [3, 3]
+        if getattr(cl, "swaps", []):
+            opts += [6, 6, 6, 6]
+        k = r.choice(opts)
+        if k == 0 and lists:
+            f = r.choice(lists)
+            # share the list of another object (often equal contents: both empty / both [a])
+            return "field_list_share", ["%s.%s = %s.%s" % (v, f, w, f)]
+        if k == 1 and lists:
+            f = r.choice(lists)
+            nl, it, el = self.fresh("nl"), self.fresh("it"), self.fresh("el")
+            # a DIFFERENT list with the SAME contents replaces the field's list, then the new list is mutated
+            return "field_list_equal_copy", ["%s: [int...] = []" % nl, "from 0 to %s.%s.len(), %s {" % (v, f, it),
+                                             "  %s = (%s.%s)[%s]" % (el, v, f, it), "  %s.push(%s)" % (nl, el), "}",
+                                             "%s.%s = %s" % (v, f, nl), "%s.push(%d)" % (nl, r.randint(0, 9)),
+                                             "print %s.%s is %s" % (v, f, nl)]
+        if k == 2 and lists:
+            f = r.choice(lists)
+            return "is_on_list_fields", ["if %s.%s.len() > 0 && %s.%s.len() > 0 {" % (v, f, w, f), "  print %s.%s is %s.%s" % (v, f, w, f),
+                                         "}"]
+        if k == 3 and maps:
+            f = r.choice(maps)
+            c2 = r.randrange(3)
+            if c2 == 0:
+                return "field_map_share", ["%s.%s = %s.%s" % (v, f, w, f), "print %s.%s is %s.%s" % (v, f, w, f)]
+            if c2 == 1:
+                nm = self.fresh("nm")
+                return "field_map_equal_copy", ['if (%s.%s)["k1"] == nil && (%s.%s)["k2"] == nil {' % (v, f, v, f),
+                                                "  %s = map[str, int] {}" % nm, "  %s.%s = %s" % (v, f, nm),
+                                                '  %s["k1"] = %d' % (nm, r.randint(0, 9)), "}"]
+            return "is_on_map_fields", ["print %s.%s is %s.%s" % (v, f, w, f)]
+        if k == 4:
+            fi = r.choice(ints)
+            exprs = ["-%s.%s" % (v, fi), "-%s.%s + %s.%s * 2" % (v, fi, w, fi), "(-%s.%s) - (-%s.%s)" % (v, fi, w, fi),
+                     "%s.%s %% 7 + %s.%s" % (v, fi, v, fi)]
+            if bools:
+                fb = r.choice(bools)
+                exprs += ["!%s.%s" % (v, fb), "!%s.%s || %s.%s > 2" % (v, fb, v, fi), "!(%s.%s && !%s.%s)" % (v, fb, w, fb)]
+            e = r.choice(exprs)
+            if r.random() < 0.5:
+                x = self.fresh("x")
+                return "pure_expr_on_fields", ["%s = %s" % (x, e), "print %s" % x]
+            return "pure_expr_on_fields", ["print " + e]
+        if k == 5 and lists:
+            f = r.choice(lists)
+            x = self.fresh("x")
+            return "pure_expr_on_index", ["if %s.%s.len() > 0 {" % (v, f), "  %s = -(%s.%s)[0]" % (x, v, f), "  print %s" % x,
+                                          "  print -(%s.%s)[0] + (%s.%s)[0] * 2" % (v, f, v, f), "}"]
+        swaps = getattr(cl, "swaps", [])
+        if k >= 6 and swaps:
+            fname, msw, kcn = r.choice(swaps)
+            kc = self.cls(kcn)
+            have = self.vars_of(kcn)
+            other = r.choice(have) if have and r.random() < 0.7 else "%s(%s)" % (kcn, self.ctor_args(kc))
+            mw = cl.weighs[kcn]
+            c2 = r.randrange(5)
+            # the field is read first and re-assigned LATER IN THE SAME EXPRESSION: values are those at evaluation time
+            if c2 == 0:
+                return "read_then_swap:args", ["print %s.%s(%s.%s, %s.%s(%s))" % (v, mw, v, fname, v, msw, other)]
+            if c2 == 1:
+                return "read_then_swap:is", ["print %s.%s is %s.%s(%s)" % (v, fname, v, msw, other)]
+            if c2 == 2:
+                return "read_then_swap:receiver", ["%s.%s.%s(%s.%s(%s).%s())" % (v, fname, kc.m_add, v, msw, other, kc.m_get)]
+            if c2 == 3:
+                return "read_then_swap:operand", ["print %s.%s.%s() * 10 + %s.%s(%s).%s()" % (v, fname, kc.m_get, v, msw, other, kc.m_get)]
+            return "read_then_swap:args", ["print %s.%s(%s.%s(%s), %s.%s)" % (v, mw, v, msw, other, v, fname)]
+        return None
 
     def method_call(self, v, cl, same):
         r = self.r
